@@ -18,7 +18,7 @@
    abstract interpreter classifies Go expressions correctly (trusted translator). *)
 From Coq Require Import List String Bool Arith.
 Import ListNotations.
-Open Scope string_scope.
+Local Open Scope string_scope.
 
 (* ---- dynamic classes of a returned pair ---- *)
 Inductive ocls := ONil | ONonNil.
